@@ -5,7 +5,7 @@
    (0 rows n / 1 error / 2 panic). *)
 From Coq Require Import List NArith ZArith Bool.
 From Shovel Require Import Base.Outcome Model.Hex Model.Bint Model.AbiType Model.AbiScan Model.AbiEnc
-     Model.AbiParse Model.AbiSig Corr.AbiCase.
+     Model.AbiParse Model.AbiSig Model.Keccak Corr.AbiCase.
 Import ListNotations.
 Open Scope N_scope.
 
@@ -19,7 +19,8 @@ Definition gobs_eqb (a b : gobs) : bool :=
 
 Inductive case :=
 | CSig (name : bytes) (js : list jty) (e : event) (sig : bytes) (nidx : nat)
-| CGate (e : event) (sighash : bytes) (logs : list (list bytes * bytes * gobs)).
+| CGate (e : event) (sighash : bytes) (logs : list (list bytes * bytes * gobs))
+| CHash (input digest : bytes).   (* eth.Keccak(input) as observed *)
 
 (* processLog on a declaration whose selected inputs are all non-indexed and
    which has no block data and no filters *)
@@ -50,10 +51,15 @@ Definition check (c : case) : bool :=
       event_eqb (event_of name js) e && bytes_eqb (event_sig e) sig && bytes_eqb (canon_sig name js) sig
       && Nat.eqb (num_indexed e) nidx
   | CGate e sighash logs =>
+      (* the hash the integration stored at construction is the model's
+         Keccak-256 of the model's signature; the gate then runs on that hash *)
+      let h := keccak256 (event_sig e) in
+      bytes_eqb h sighash &&
       match event_type false e with
-      | Ok t => run_logs (num_indexed e) (ncols_of t) t sighash (new_result (ncols_of t)) logs
+      | Ok t => run_logs (num_indexed e) (ncols_of t) t h (new_result (ncols_of t)) logs
       | _ => false
       end
+  | CHash input digest => bytes_eqb (keccak256 input) digest
   end.
 
 Definition run (cs : list case) : list nat := mismatches check cs.
